@@ -163,6 +163,80 @@ theorem C20_cancel (cfg : Cfg) (o : Opts) (gs : List (ClusterId × List Uuid)) (
         · rename_i hnil; rw [hnil] at hmem; cases hmem
         · exact ⟨_, rfl, hmem⟩
 
+/-! ### conn.go UserList with a LoginCluster -/
+
+/-- When is a user list request diverted to the login cluster. -/
+theorem C20_userlist_detour_iff (localId login : ClusterId) (o : Opts) :
+    userListDetour localId login o = false ↔ (login = [] ∨ login = localId ∨ o.bypass = true) := by
+  unfold userListDetour
+  cases hb : o.bypass <;> by_cases h1 : login = [] <;> by_cases h2 : login = localId <;> simp [h1, h2]
+
+/-- **UserList without detour.** Without a LoginCluster, with the local cluster as LoginCluster, or
+with bypass_federation, `Conn.UserList` is the generated federated list (`run`), and the user cache
+is not touched. -/
+theorem C20_userlist_plain (cfg : Cfg) (login : ClusterId) (fails : Bool) (o : Opts)
+    (h : userListDetour cfg.localId login o = false) :
+    (runUserList cfg login fails o).out = (run cfg o).out ∧
+    (runUserList cfg login fails o).log = (run cfg o).log ∧
+    (runUserList cfg login fails o).detour = none ∧ (runUserList cfg login fails o).update = none := by
+  unfold runUserList
+  simp [h]
+
+/-- the uuids cached locally: those returned uuids that start with the LoginCluster id, once each -/
+def cachedUuids (login : ClusterId) (items : List Obj) : List Uuid :=
+  dedup ((pageUuids items).filter (hasPrefix login))
+
+theorem cachedUuids_spec (login : ClusterId) (items : List Obj) :
+    (cachedUuids login items).Nodup ∧
+    ∀ u, u ∈ cachedUuids login items ↔ (u ∈ pageUuids items ∧ hasPrefix login u = true) := by
+  refine ⟨nodup_dedup _, fun u => ?_⟩
+  unfold cachedUuids
+  rw [mem_dedup, List.mem_filter]
+
+/-- **UserList with a LoginCluster.** Exactly one list call is made — to `chooseBackend(LoginCluster)`
+with the options unchanged, no uuid splitting — and an error of that backend is passed on. -/
+theorem C20_userlist_detour (cfg : Cfg) (login : ClusterId) (fails : Bool) (o : Opts)
+    (h : userListDetour cfg.localId login o = true) :
+    (runUserList cfg login fails o).log = [] ∧
+    (runUserList cfg login fails o).detour = some (o, chooseBackend cfg login o 0) ∧
+    (∀ s, chooseBackend cfg login o 0 = .error s →
+      (runUserList cfg login fails o).out = .err [s] ∧ (runUserList cfg login fails o).update = none) := by
+  unfold runUserList
+  simp only [h, if_true]
+  cases hr : chooseBackend cfg login o 0 with
+  | error s =>
+    refine ⟨rfl, rfl, ?_⟩
+    intro s' hs; cases hs; exact ⟨rfl, rfl⟩
+  | page items =>
+    simp only
+    refine ⟨?_, ?_, ?_⟩
+    · split
+      · rfl
+      · split <;> rfl
+    · split
+      · rfl
+      · split <;> rfl
+    · intro s hs; cases hs
+
+/-- … and a page is passed on as it is, after the returned uuids of the LoginCluster (`cachedUuids`)
+have been handed to the local `UserBatchUpdate` (not called when there is none); if that update fails
+the request fails without items. -/
+theorem C20_userlist_detour_page (cfg : Cfg) (login : ClusterId) (fails : Bool) (o : Opts)
+    (h : userListDetour cfg.localId login o = true) (items : List Obj)
+    (hr : chooseBackend cfg login o 0 = .page items) :
+    (cachedUuids login items = [] →
+      (runUserList cfg login fails o).out = .ok items ∧ (runUserList cfg login fails o).update = none) ∧
+    (cachedUuids login items ≠ [] →
+      (runUserList cfg login fails o).update = some (cachedUuids login items, fails) ∧
+      (fails = false → (runUserList cfg login fails o).out = .ok items) ∧
+      (fails = true → (runUserList cfg login fails o).out = .err [0])) := by
+  unfold runUserList cachedUuids
+  simp only [h, if_true, hr]
+  constructor
+  · intro hu; simp [hu]
+  · intro hu
+    cases fails <;> simp [hu]
+
 /-! Non-vacuity: a schedule with a cause, on a concrete instance (unknown cluster yyyyy fails with 404
 at once; remote bbbbb, which would page twice, sees the cancelled context at its second call). -/
 
